@@ -142,3 +142,222 @@ def impl_probe(name, texts):
     from compare_locales.merge import merge_channels
     out = merge_channels(name, [t.encode("utf-8") for t in texts])
     return out.decode("utf-8")
+
+
+# ---------------------------------------------------------------- round 5: process histories
+def _classes():
+    return {"properties": P.PropertiesParser, "dtd": P.DTDParser, "ini": P.IniParser, "inc": P.DefinesParser,
+            "po": P.PoParser, "ftl": P.FluentParser, "android": P.AndroidParser}
+
+
+def _short(e):
+    k = kind_of(e)
+    return [k, repr(e.key) if k in "ESI?" and not isinstance(e, Comment) else ""]
+
+
+def _write(path, text):
+    import os
+    os.makedirs(os.path.dirname(path), exist_ok=True)
+    with open(path, "w", encoding="utf-8", newline="") as f:
+        f.write(text)
+
+
+def h_merge(base, op):
+    """merge_channels(name, [bytes, ...]) on the process-wide parser, exactly as a caller does it; afterwards the same
+    resources through `merge_resources` with a parser instance created for this one call (`fresh`: diagnostics and
+    differential only — the shared instance is not touched by it)"""
+    from codecs import encode
+    from compare_locales.merge import merge_channels, merge_resources, serialize_legacy_resource, MergeNotSupportedError
+    datas = [t.encode("utf-8") for t in op["texts"]]
+    res = {}
+    try:
+        out = merge_channels(op["name"], datas)
+        if not isinstance(out, bytes):
+            res["canon"] = "exc TypeError: merge_channels returned %s" % type(out).__name__
+        else:
+            res["text"] = out.decode("utf-8", "replace")
+            res["canon"] = "ok " + enc(res["text"])
+    except MergeNotSupportedError:
+        res["canon"] = "err MergeNotSupportedError"
+    except TypeError as e:
+        res["canon"] = "err TypeError" if ("empty" in str(e) and not datas) else "exc TypeError: %s" % str(e)[:200]
+    except Exception as e:          # noqa: a crash is an observation
+        res["canon"] = "exc %s: %s" % (type(e).__name__, str(e)[:200])
+    cls = _classes().get(op.get("fmt"))
+    if cls is not None and datas and op.get("fresh", True):
+        try:
+            p = cls()
+            res["fresh"] = encode(serialize_legacy_resource(merge_resources(p, datas)), p.encoding).decode("utf-8", "replace")
+        except Exception as e:      # noqa
+            res["fresh"] = None
+            res["fresh_exc"] = "%s: %s" % (type(e).__name__, str(e)[:200])
+    return res
+
+
+def h_load(base, op):
+    """the other users of the shared parser: getParser(name).readUnicode / readFile / readContents, then walk() /
+    parse() / iteration / a walk that is abandoned after `k` entries / nothing"""
+    import os
+    import shutil
+    import tempfile
+    try:
+        p = P.getParser(op["name"])
+    except UserWarning:
+        return {"canon": "noparser"}
+    via = op.get("via", "unicode")
+    if via == "missing":
+        # the exception path of readFile: the file does not exist (compare / lint of a file that vanished)
+        try:
+            p.readFile(os.path.join(base, "no-such-dir", op["name"]))
+        except OSError as e:
+            return {"canon": "exc %s" % type(e).__name__}
+        return {"canon": "loaded"}
+    if via == "file":
+        d = tempfile.mkdtemp(dir=base)
+        try:
+            path = os.path.join(d, op["name"])
+            _write(path, op["text"])
+            p.readFile(path)
+        finally:
+            shutil.rmtree(d, ignore_errors=True)
+    elif via == "contents":
+        p.readContents(op["text"].encode("utf-8"))
+    else:
+        p.readUnicode(op["text"])
+    how = op.get("consume", "walk")
+    if how == "none":
+        return {"canon": "loaded"}
+    if how == "walk":
+        ents = list(p.walk())
+    elif how == "parse":
+        ents = list(p.parse())
+    elif how == "iter":
+        ents = list(p)
+    else:                           # partial: the generator is dropped after k entries
+        ents = []
+        g = p.walk()
+        for _ in range(op.get("k", 1)):
+            try:
+                ents.append(next(g))
+            except StopIteration:
+                break
+        del g
+    return {"canon": " ".join("%s:%s" % tuple(_short(e)) for e in ents)[:400]}
+
+
+def h_compare(base, op):
+    import os
+    import shutil
+    import tempfile
+    from compare_locales.compare import ContentComparer, Observer
+    from compare_locales.paths import File
+    d = tempfile.mkdtemp(dir=base)
+    try:
+        name = op["name"]
+        refp, l10p = os.path.join(d, "ref", name), os.path.join(d, "l10n", name)
+        _write(refp, op["ref"])
+        if op.get("l10n") is not None:          # None: the localized file does not exist (readFile raises inside compare)
+            _write(l10p, op["l10n"])
+        cc = ContentComparer()
+        cc.observers.append(Observer())
+        try:
+            cc.compare(File(refp, name), File(l10p, name, locale="de"), None, None)
+            return {"canon": str(sorted(cc.observers.toJSON()["summary"].get("de", {}).items()))[:300]}
+        except Exception as e:      # noqa
+            return {"canon": "exc %s" % type(e).__name__}
+    finally:
+        shutil.rmtree(d, ignore_errors=True)
+
+
+def h_lint(base, op):
+    import os
+    import shutil
+    import tempfile
+    from compare_locales.lint.linter import L10nLinter
+    d = tempfile.mkdtemp(dir=base)
+    try:
+        name = op["name"]
+        curp = os.path.join(d, "cur", name)
+        _write(curp, op["cur"])
+        refp = None
+        if op.get("ref") is not None:
+            refp = os.path.join(d, "ref", name)
+            _write(refp, op["ref"])
+        try:
+            n = len(list(L10nLinter().lint_file(curp, refp, None)))
+            return {"canon": "lint %d" % n}
+        except Exception as e:      # noqa
+            return {"canon": "exc %s" % type(e).__name__}
+    finally:
+        shutil.rmtree(d, ignore_errors=True)
+
+
+def h_serialize(base, op):
+    from compare_locales.serializer import serialize
+    name = op["name"]
+    try:
+        p = P.getParser(name)
+        p.readUnicode(op["ref"])
+        ref = list(p.walk())
+        p.readUnicode(op["old"])
+        old = list(p.walk())
+        out = serialize(name, ref, old, dict(op.get("new") or []))
+        return {"canon": "ser %d" % len(out)}
+    except Exception as e:          # noqa
+        return {"canon": "exc %s" % type(e).__name__}
+
+
+def h_lookup(base, op):
+    """hasParser / getParser on names (look-alikes that have no parser, and supported ones)"""
+    out = []
+    for n in op["names"]:
+        if op.get("how") == "has":
+            out.append("gp " + ("?" if P.hasParser(n) else "none"))
+        else:
+            try:
+                out.append("gp " + enc(type(P.getParser(n)).__name__))
+            except UserWarning:
+                out.append("gp none")
+    return {"canon": " | ".join(out), "each": out}
+
+
+H_OPS = {"merge": h_merge, "load": h_load, "compare": h_compare, "lint": h_lint, "serialize": h_serialize,
+         "lookup": h_lookup}
+
+
+def impl_history(ops):
+    """a whole history in THIS interpreter, one result per step"""
+    import io
+    import shutil
+    import sys
+    import tempfile
+    base = tempfile.mkdtemp(prefix="verif-c15-")
+    out = []
+    real = sys.stdout
+    try:
+        for op in ops:
+            sys.stdout = io.StringIO()
+            try:
+                r = H_OPS[op["op"]](base, op)
+            except Exception as e:  # noqa: adapter-level failure, reported as such
+                r = {"canon": "ADAPTER-EXC %s: %s" % (type(e).__name__, str(e)[:200])}
+            finally:
+                sys.stdout = real
+            out.append(r)
+    finally:
+        shutil.rmtree(base, ignore_errors=True)
+    return out
+
+
+def impl_describe(fmt, name, texts, out):
+    """what the oracle needs about ONE merge of a history, computed in another interpreter with parsers created for
+    the purpose: the fields of impl_merge for the result `out` (text or None) the history's merge returned"""
+    datas = [t.encode("utf-8") for t in texts]
+    res = {"versions": [describe(fmt, name, d) for d in datas], "ents": ents_line(fmt, name, datas)}
+    if out is not None:
+        res["canon"] = "ok " + enc(out)
+        res["text"] = out
+        res["reparse"] = describe(fmt, name, out.encode("utf-8"))
+        if fmt == "android":
+            res["xml"] = xml_root(out.encode("utf-8"))
+    return res
